@@ -368,7 +368,8 @@ def ShareSound (f : Facts) : Prop :=
   (lockKind f.listCell ≠ .none ∧ f.lockSites ≠ [] ∧
     ∀ s ∈ f.lockSites, modeValid (lockKind f.listCell) s.mode = true
       ∧ (siteNeedsExcl f s = true → grantsExcl (lockKind f.listCell) s.mode = true))
-  ∧ (f.unsafeTypes ≠ [] ∧ ∀ u ∈ f.unsafeTypes, ∀ s ∈ u.fields, s.hasRc = false ∧ s.bareCell = false)
+  ∧ (f.unsafeTypes ≠ [] ∧ ∀ u ∈ f.unsafeTypes,
+      (∀ s ∈ u.fields, s.hasRc = false ∧ s.bareCell = false) ∧ (u.ty = .rawList ∨ u.sharedWriters = 0))
   ∧ (f.closures ≠ [] ∧ ∀ c ∈ f.closures, closureOwns f c = true ∧ closureSendSync f c = true)
 
 /-- **T4.** The decision computed from the generated facts is exactly: every
@@ -378,17 +379,16 @@ lock), every closure derived from a handle owns what it uses and is itself
 `Send + Sync`. -/
 theorem share_sound (f : Facts) : shareJustified f = true ↔ ShareSound f := by
   unfold shareJustified ShareSound lockDiscipline countsAtomic closuresOwn
-  simp only [Bool.and_eq_true, List.all_eq_true, bne_iff_ne, ne_eq,
+  simp only [Bool.and_eq_true, List.all_eq_true, bne_iff_ne, ne_eq, beq_iff_eq,
     List.isEmpty_eq_false_iff, Bool.or_eq_true, Bool.not_eq_eq_eq_not, Bool.not_true]
   constructor
   · rintro ⟨⟨⟨⟨hk, hne⟩, hs⟩, ⟨hune, hu⟩⟩, ⟨hcne, hc⟩⟩
-    refine ⟨⟨hk, hne, fun s hsm => ⟨(hs s hsm).1, fun hn => ?_⟩⟩, ⟨hune, fun u hum sh hsh => ?_⟩, ⟨hcne, hc⟩⟩
-    · rcases (hs s hsm).2 with h | h
-      · rw [hn] at h; cases h
-      · exact h
-    · exact hu u hum sh hsh
+    refine ⟨⟨hk, hne, fun s hsm => ⟨(hs s hsm).1, fun hn => ?_⟩⟩, ⟨hune, hu⟩, ⟨hcne, hc⟩⟩
+    rcases (hs s hsm).2 with h | h
+    · rw [hn] at h; cases h
+    · exact h
   · rintro ⟨⟨hk, hne, hs⟩, ⟨hune, hu⟩, ⟨hcne, hc⟩⟩
-    refine ⟨⟨⟨⟨hk, hne⟩, fun s hsm => ⟨(hs s hsm).1, ?_⟩⟩, ⟨hune, fun u hum sh hsh => hu u hum sh hsh⟩⟩, ⟨hcne, hc⟩⟩
+    refine ⟨⟨⟨⟨hk, hne⟩, fun s hsm => ⟨(hs s hsm).1, ?_⟩⟩, ⟨hune, hu⟩⟩, ⟨hcne, hc⟩⟩
     cases hn : siteNeedsExcl f s with
     | false => exact Or.inl rfl
     | true => exact Or.inr ((hs s hsm).2 hn)
@@ -559,8 +559,8 @@ open Share
 writing (1), `push(&mut self)` (2); a handle with a raw pointer and an `Arc` -/
 def good : Facts where
   edition := 2024
-  unsafeTypes := [{ ty := .functionDescription, send := true, sync := true, fields := [.arc (.own (.dyn false false)), .raw] },
-                  { ty := .typedFunc, send := true, sync := true, fields := [.raw, .plain, .own (.arc .ext)] }]
+  unsafeTypes := [{ ty := .functionDescription, send := true, sync := true, fields := [.arc (.own (.dyn false false)), .raw], sharedWriters := 0 },
+                  { ty := .typedFunc, send := true, sync := true, fields := [.raw, .plain, .own (.arc .ext)], sharedWriters := 0 }]
   listCell := .arc (.mutex .ext)
   rawMethods := [{ recv := .shared, writes := false }, { recv := .shared, writes := true }, { recv := .excl, writes := true }]
   lockSites := [{ mode := .mutexLock, calls := [0], mutBorrow := false }, { mode := .mutexLock, calls := [1], mutBorrow := false },
@@ -590,7 +590,7 @@ example : lockDiscipline { good with listCell := .arc (.cell .ext) } = false := 
 
 /-- an `Rc` behind the blanket `unsafe impl`; -/
 example : countsAtomic { good with unsafeTypes :=
-    [{ ty := .functionDescription, send := true, sync := true, fields := [.rc (.own (.dyn false false)), .raw] }] } = false := by decide
+    [{ ty := .functionDescription, send := true, sync := true, fields := [.rc (.own (.dyn false false)), .raw], sharedWriters := 0 }] } = false := by decide
 
 /-- a closure that captures the code pointer without the module (and is then
 not `Send + Sync` either); the same closure before edition 2021 captured all of
